@@ -14,11 +14,11 @@
 //!   lsp  <entry abs path>              in-process tower-lsp didOpen            -> `OK deps=<path;..> self=<n> diags=<msg||msg>`
 //!                                      (deps = files for which the server published diagnostics; self = how often the entry was loaded as a dependency)
 //!   check <cwd> <entry>                collect_modules + TypeChecker::check_with_imports (body of check_file)
-//!                                      -> `PASS` | `FAIL msg||msg` | `ERR text`
+//!                                      -> `PASS @@<modules>` | `FAIL msg||msg @@<modules>` | `ERR text`  (modules as for cli)
 //!   checkcli <cwd> <entry> <ms>        child process running the real cli::commands::check_file with a timeout
 //!                                      -> `PASS` | `FAIL text` | `TIMEOUT` | `CRASH text`
 //!   `vharness run c14 --child-check <cwd> <entry>` is that child.
-use crate::common::{catch, each_line};
+use crate::common::catch;
 use std::path::{Path, PathBuf};
 use std::sync::{Arc, Mutex};
 
@@ -170,10 +170,11 @@ fn do_check(entry: &str) -> String {
         return "ERR No modules found".to_string();
     };
     let deps: Vec<(&str, &Program)> = modules[..modules.len() - 1].iter().map(|m| (m.name.as_str(), &m.ast)).collect();
+    let mods = modules.iter().map(|m| format!("{},{},{}", m.name, m.path_segments.join("."), file_id(&m.source))).collect::<Vec<_>>().join(";");
     let mut checker = TypeChecker::new();
     match checker.check_with_imports(&main_module.ast, &deps) {
-        Ok(()) => "PASS".to_string(),
-        Err(errs) => format!("FAIL {}", errs.iter().map(|e| clean(&e.message)).collect::<Vec<_>>().join("||")),
+        Ok(()) => format!("PASS @@{}", mods),
+        Err(errs) => format!("FAIL {} @@{}", errs.iter().map(|e| clean(&e.message)).collect::<Vec<_>>().join("||"), mods),
     }
 }
 
@@ -245,7 +246,32 @@ pub fn run(args: &[String]) {
         std::process::exit(code);
     }
     let root = args.first().cloned().unwrap_or_default();
-    each_line(|line| {
+    // Own line loop (not common::each_line): every result is flushed at once and a watchdog thread
+    // ends the process with a final `HANG` line when one case runs longer than the limit, so the
+    // driver can tell exactly which case did not terminate and resume after it.
+    use std::io::{BufRead, Write};
+    use std::sync::atomic::{AtomicU64, Ordering};
+    static STARTED_MS: AtomicU64 = AtomicU64::new(0);
+    let limit_ms: u64 = std::env::var("C14_CASE_LIMIT_MS").ok().and_then(|s| s.parse().ok()).unwrap_or(10000);
+    let t0 = std::time::Instant::now();
+    std::thread::spawn(move || loop {
+        std::thread::sleep(std::time::Duration::from_millis(100));
+        let st = STARTED_MS.load(Ordering::SeqCst);
+        if st != 0 && (t0.elapsed().as_millis() as u64).saturating_sub(st) > limit_ms {
+            println!("HANG");
+            let _ = std::io::stdout().flush();
+            std::process::exit(4);
+        }
+    });
+    let stdin = std::io::stdin();
+    for line in stdin.lock().lines() {
+        let Ok(line) = line else { break };
+        if line.is_empty() {
+            continue;
+        }
+        STARTED_MS.store(t0.elapsed().as_millis() as u64 + 1, Ordering::SeqCst);
+        let line = line.as_str();
+
         let p: Vec<&str> = line.split('\t').collect();
         let cmd = p[0];
         let root = root.clone();
@@ -303,9 +329,12 @@ pub fn run(args: &[String]) {
             "checkcli" => spawn_check(p[1], p[2], p.get(3).and_then(|s| s.parse().ok()).unwrap_or(20000)),
             _ => "E bad command".to_string(),
         });
-        match r {
+        let res = match r {
             Ok(s) => s,
             Err(msg) => format!("PANIC {}", clean(&msg)),
-        }
-    });
+        };
+        STARTED_MS.store(0, Ordering::SeqCst);
+        println!("{}", res.replace('\n', "\\n"));
+        let _ = std::io::stdout().flush();
+    }
 }
